@@ -15,6 +15,33 @@ INTO_ITER = "core::iter::traits::collect::IntoIterator::into_iter"
 NEXT = "core::iter::traits::iterator::Iterator::next"
 
 
+def _pointees(du, ptr):
+    """Locals a pointer/reference local was (transitively) derived from."""
+    back, seenb = [ptr], set()
+    while back:
+        x = back.pop()
+        if x in seenb:
+            continue
+        seenb.add(x)
+        for s3, _w3 in du.defs.get(x, []):
+            if s3.is_term:
+                if callee_orig(s3.node) and s3.node["args"] and (
+                        "as_mut_ptr" in callee_orig(s3.node) or "deref" in callee_orig(s3.node).lower()):
+                    y = op_local(s3.node["args"][0])
+                    if y is not None:
+                        back.append(y)
+                continue
+            r3 = s3.node["rv"]
+            y = None
+            if r3["k"] in ("ref", "rawptr"):
+                y = r3["pl"]["l"]
+            elif r3["k"] in ("use", "cast"):
+                y = op_local(r3["op"])
+            if y is not None:
+                back.append(y)
+    return seenb
+
+
 def taint_from(fn, seeds, through_bin=False):
     """Forward may-flow of a value through moves, refs, aggregates, payload reads, collections
     (Vec::push / into_iter / next) -- enough to follow a JoinHandle or a CopyHandle."""
@@ -74,6 +101,13 @@ def taint_from(fn, seeds, through_bin=False):
                     for s2, _w in du.defs.get(rl, []):
                         if not s2.is_term and s2.node["rv"]["k"] == "ref":
                             tgt = s2.node["rv"]["pl"]["l"]
+                            if "deref" in (s2.node["rv"]["pl"].get("p") or []):
+                                # pushed into a Vec reached through a reference (`self.handles.push(h)`): the value
+                                # the reference was taken of holds it
+                                for x in _pointees(du, tgt):
+                                    if x not in t:
+                                        t.add(x)
+                                        work.append(x)
                 elif (o in (INTO_ITER, NEXT, "core::ops::deref::Deref::deref", "core::ops::deref::DerefMut::deref_mut",
                             "alloc::sync::Arc::<T>::new", "core::clone::Clone::clone", "core::ops::try_trait::Try::branch",
                             "alloc::boxed::Box::<T>::new", "alloc::boxed::box_new", "alloc::slice::<impl [T]>::into_vec",
@@ -344,7 +378,7 @@ def spawn_join(fx, crates=("libxcp", "xcp")):
         if pending:
             _spawn_join_in(fx, f, obs, covered)
     nsp = len(covered)
-    if nsp < (5 if "xcp" in crates else 4) - 1:
+    if nsp < (3 if "xcp" in crates else 2):     # shared spawn helpers can reduce the source sites to two
         obs.append(anchor_ob("R-THREAD", "thread::spawn sites (found %d)" % nsp))
     return obs
 
